@@ -47,9 +47,12 @@ Definition pub_ok (pub vals : list Z) : bool :=
 (* the oracle of an event is an allowed choice *)
 Definition wf_ev_b (s : sys) (e : ev) : bool :=
   match e with
-  | EReload snap adds rems =>
-    pperm_b adds (calc_add (rvals s) (snap_map snap)) &&
-    perm_b rems (calc_rem (rvals s) (snap_map snap))
+  | EReload snap calls =>
+    (* any interleaving of the computed adds and removes *)
+    pperm_b (flat_map (fun e => match e with LAdd k v => [(k, v)] | LDel _ => [] end) calls)
+            (calc_add (rvals s) (snap_map snap)) &&
+    perm_b (flat_map (fun e => match e with LAdd _ _ => [] | LDel k => [k] end) calls)
+           (calc_rem (rvals s) (snap_map snap))
   | EJoin _ order => pperm_b order (rvals s)
   | _ => true
   end.
